@@ -182,7 +182,7 @@ reg('C09',
     deadline={'quick': 100, 'thorough': 1500},
     level=MC,
     technique='bounded-exhaustive differential enumeration: every ordered pair of messages executed on the real parser (ASan), trace of B after A compared with B on a fresh context',
-    rule={'quick': 'message set M = 43 single units + all 1849 ordered unit pairs (compound paths, common commands, every parameter kind incl. malformed lists and dangling comma, queries that succeed / fail midway / leave a block unfinished / write block data without header, invalid and incomplete units), each NL-terminated; ordered pairs (A, B): all |M|^2 = 3.6 M; compared: handler invocations with effective header and decoded parameters, output bytes, flushes, error callbacks, SCPI_Input result; non-trivial = pair whose A executed a handler or raised an error',
+    rule={'quick': 'message set M = 46 single units + all 2116 ordered unit pairs (compound paths, common commands, every parameter kind incl. malformed lists and dangling comma, queries that succeed / fail midway / leave a block unfinished / write block data without header, invalid and incomplete units), each NL-terminated; ordered pairs (A, B): all |M|^2 = 4.7 M, plus A and an unterminated single-unit B in one call executed by a flush; compared: handler invocations with effective header and decoded parameters, output bytes, flushes, error callbacks, SCPI_Input result; non-trivial = pair whose A executed a handler or raised an error',
           'thorough': 'additionally every two-message history (A1, A2 single units) x every B in M (2.9 M), also in the no-info build'},
     assumptions=['B never queries status registers or the error queue (excepted by the statement); error queue capacity 64 so overflow cannot alias the comparison',
                  'A is always a terminated message (the harness asserts that nothing stays pending after A)'],
@@ -254,7 +254,7 @@ reg('C18',
     deadline={'quick': 100, 'thorough': 900},
     level=MC,
     technique='bounded-exhaustive enumeration of (error code, text length, quote placement) on the real SYST:ERR? path (ASan), each response parsed by an independent IEEE 488.2 string reader',
-    rule={'quick': 'all 65536 codes without text; for every distinct description length and for a code without table entry: text lengths {0..8} u {B-6..B+6} u {300, 400} (B = text index where the 255-character limit falls) x every placement of 0..3 double quotes inside the windows [0,8) and [B-6,B+6) and of one single quote; malloc build and static-heap build (with and without a heap prefill that makes the text wrap); every history of <= 6 operations over {push a quoted text of 3/7/11/15/19 characters, SYST:ERR?} on heaps of 24/32/40 bytes (wrap-around, exact fit, reuse); non-trivial = response that passed the reader (well-formed string, prefix of description;text, <= 255, cut as late as possible)',
+    rule={'quick': 'all 65536 codes without text; for every distinct description length and for a code without table entry: text lengths {0..8} u {B-6..B+6} u {300, 400} (B = text index where the 255-character limit falls) x every placement of 0..3 double quotes inside the windows [0,8) and [B-6,B+6) and of one single quote; malloc build and static-heap build (with and without a heap prefill that makes the text wrap); every history of <= 7 operations over {push a quoted text of 3/7/11/15/19 characters, SYST:ERR?} on a queue of 2 entries (overflow) and heaps of 24/32/40 bytes (wrap-around, exact fit, reuse, roll-back); non-trivial = response that passed the reader (well-formed string, prefix of description;text, <= 255, cut as late as possible)',
           'thorough': 'windows of +-10 around the limit; also the no-info build'},
     assumptions=['for an empty text both "description" and "description;" are accepted (the malloc build stores the empty string, the heap build stores nothing)',
                  'descriptions are taken from the LIST_OF_ERRORS X-macro, independently of SCPI_ErrorTranslate'],
